@@ -371,17 +371,20 @@ def check_lwe_encrypt(chk, v, sign_ph=1, rule="R1"):
             n_e = sym.arrow(P(key, "params"), "n")
             want = sym.mul(sym.idx(P(res, "a"), j), sym.idx(P(key, "key"), j))
             sgn = 1 if accb[0]["op"] == "+=" else -1
-            if not summ.visits(lp, ZERO, n_e):
-                problems.append("mask*key accumulation over [%s %s %s), the phase uses [0, key->params->n)" % (
-                    sym.show(lp["lo"]), lp["cmp"], sym.show(lp["hi"])))
-            if accb[0]["val"] != want:
-                problems.append("accumulated product %s, the phase subtracts a[i]*key[i]" % sym.show(accb[0]["val"]))
-            if sgn != sign_ph:
-                problems.append("encryption adds the product with sign %+d, the phase removes it with sign %+d" % (sgn, -sign_ph))
-            # fresh mask over the same range
             ast = [p for p in eps if p["kind"] == "store" and p["lv"][0] == "idx" and p["lv"][1] == P(res, "a")]
-            if len(ast) != 1 or ast[0]["loops"][0] is not lp or ast[0]["lv"][2] != j:
-                problems.append("mask coefficients are not all assigned in the same loop")
+            shape = None
+            if not summ.visits(lp, ZERO, n_e):
+                shape = "mask*key accumulation over [%s %s %s)" % (sym.show(lp["lo"]), lp["cmp"], sym.show(lp["hi"]))
+            elif accb[0]["val"] != want:
+                shape = "accumulated product %s" % sym.show(accb[0]["val"])[:80]
+            elif len(ast) != 1 or not ast[0]["loops"] or ast[0]["loops"][0] is not lp or ast[0]["lv"][2] != j:
+                shape = "the mask is drawn in a loop of its own"
+            if shape:
+                # another arrangement of the same computation (mask drawn first, product summed downwards, ...): by interpretation --
+                # a wrong range, operand or sign shows up there with the dimension and the surviving key term as witness
+                problems.extend(encrypt_enumerated(e, res, msg, key, shape))
+            elif sgn != sign_ph:
+                problems.append("encryption adds the product with sign %+d, the phase removes it with sign %+d" % (sgn, -sign_ph))
         chk.require(not problems, rule, "%s: phase(encrypt(m)) = m + noise (mask*key terms cancel for every n)" % ename, where=e.where,
                     ok="b = m + noise + sum_{i<n} a[i]*key[i] with the phase's range, operands and opposite sign", bad="; ".join(problems), variant=vn)
         if rule == "R1":
